@@ -52,6 +52,10 @@ enum Op<C> {
     Clear(C),
     /// a filled `Rectangle` drawable
     StyledRect(Rectangle, C),
+    /// `MockDisplay::draw_pixel` called directly (what every drawing operation ends in)
+    DrawPixel(Point, C),
+    /// `MockDisplay::set_pixels` with in-range points
+    SetPixels(Vec<Point>, Option<C>),
 }
 
 fn inside(p: Point) -> bool {
@@ -119,7 +123,8 @@ where
             0..=4 => {
                 let p = gen_point(d, &used);
                 used.push(p);
-                Op::Pixel(p, d.pick(palette))
+                // auxiliary word 6: in half of the histories single pixels go through draw_pixel directly
+                if d.aux_u(6, 0, 1) == 1 { Op::DrawPixel(p, d.pick(palette)) } else { Op::Pixel(p, d.pick(palette)) }
             }
             5..=7 => {
                 let n = d.u(1, 5);
@@ -150,7 +155,18 @@ where
                 let p = Point::new(d.i(0, 63), d.i(0, 63));
                 let p = if !used.is_empty() && d.bool() { let q = used[d.idx(used.len())]; if inside(q) { q } else { p } } else { p };
                 used.push(p);
-                Op::Set(p, if d.bool() { Some(d.pick(palette)) } else { None })
+                let c = if d.bool() { Some(d.pick(palette)) } else { None };
+                // auxiliary word 7: in half of the histories set_pixel becomes set_pixels with 1..=3 in-range points
+                if d.aux_u(7, 0, 1) == 1 {
+                    let mut pts = vec![p];
+                    for _ in 0..d.u(0, 2) {
+                        pts.push(Point::new(d.i(0, 63), d.i(0, 63)));
+                    }
+                    used.extend(pts.iter().copied());
+                    Op::SetPixels(pts, c)
+                } else {
+                    Op::Set(p, c)
+                }
             }
         };
         ops.push(op);
@@ -182,15 +198,28 @@ where
                     }
                 }
             }
+            Op::SetPixels(pts, c) => {
+                display.set_pixels(pts.iter().copied(), *c);
+                for p in pts {
+                    match c {
+                        Some(c) => {
+                            model.insert((p.x, p.y), *c);
+                        }
+                        None => {
+                            model.remove(&(p.x, p.y));
+                        }
+                    }
+                }
+            }
             _ => {
                 // the documented meaning of every drawing operation: a sequence of pixels
                 let pixels: Vec<(Point, C)> = match op {
-                    Op::Pixel(p, c) => vec![(*p, *c)],
+                    Op::Pixel(p, c) | Op::DrawPixel(p, c) => vec![(*p, *c)],
                     Op::Iter(v) => v.clone(),
                     Op::FillSolid(a, c) | Op::StyledRect(a, c) => a.points().map(|p| (p, *c)).collect(),
                     Op::FillContiguous(a, cs) => a.points().zip(cs.iter().copied()).collect(),
                     Op::Clear(c) => Rectangle::new(Point::zero(), embedded_graphics::geometry::Size::new(64, 64)).points().map(|p| (p, *c)).collect(),
-                    Op::Set(..) => unreachable!(),
+                    Op::Set(..) | Op::SetPixels(..) => unreachable!(),
                 };
                 // what the documentation says must happen
                 let mut trial = model.clone();
@@ -216,6 +245,7 @@ where
                 let mut clone = display.clone();
                 let result = catch(|| match op {
                     Op::Pixel(p, c) => Pixel(*p, *c).draw(&mut clone).unwrap(),
+                    Op::DrawPixel(p, c) => clone.draw_pixel(*p, *c),
                     Op::Iter(v) => clone.draw_iter(v.iter().map(|(p, c)| Pixel(*p, *c))).unwrap(),
                     Op::FillSolid(a, c) => clone.fill_solid(a, *c).unwrap(),
                     Op::FillContiguous(a, cs) => clone.fill_contiguous(a, cs.iter().copied()).unwrap(),
@@ -224,7 +254,7 @@ where
                         use embedded_graphics::primitives::{Primitive, PrimitiveStyle};
                         a.into_styled(PrimitiveStyle::with_fill(*c)).draw(&mut clone).unwrap()
                     }
-                    Op::Set(..) => unreachable!(),
+                    Op::Set(..) | Op::SetPixels(..) => unreachable!(),
                 });
                 match (expect_panic, result) {
                     (None, Ok(())) => {
@@ -261,6 +291,27 @@ where
             Rectangle::with_corners(Point::new(x0, y0), Point::new(x1, y1))
         };
         ensure!(area == exp_area, "affected_area", "after operation {}: affected_area() = {:?}, tight box of the touched cells {:?}", k, area, exp_area);
+    }
+
+    // derived displays: swap_xy mirrors, map applies the function cell by cell, from_points sets exactly the points
+    // (on a third of the histories: three more passes over all 4096 cells)
+    let derived = ops.len() % 3 == 0;
+    let swapped = display.swap_xy();
+    let mapped = display.map(|c| if c == palette[0] { palette[palette.len() - 1] } else { palette[0] });
+    for y in 0..if derived { 64 } else { 0 } {
+        for x in 0..64 {
+            let here = model.get(&(x, y)).copied();
+            ensure!(swapped.get_pixel(Point::new(y, x)) == here, "swap_xy", "swap_xy(): cell ({}, {}) is {:?}, the original has {:?} at ({}, {})", y, x, swapped.get_pixel(Point::new(y, x)), here, x, y);
+            let exp = here.map(|c| if c == palette[0] { palette[palette.len() - 1] } else { palette[0] });
+            ensure!(mapped.get_pixel(Point::new(x, y)) == exp, "map", "map(f): cell ({}, {}) is {:?}, expected {:?}", x, y, mapped.get_pixel(Point::new(x, y)), exp);
+        }
+    }
+    let from_points = MockDisplay::<C>::from_points(model.keys().map(|k| Point::new(k.0, k.1)), palette[0]);
+    for y in 0..if derived { 64 } else { 0 } {
+        for x in 0..64 {
+            let exp = model.get(&(x, y)).map(|_| palette[0]);
+            ensure!(from_points.get_pixel(Point::new(x, y)) == exp, "from_points", "from_points: cell ({}, {}) is {:?}, expected {:?}", x, y, from_points.get_pixel(Point::new(x, y)), exp);
+        }
     }
 
     // Debug <-> from_pattern round trip
